@@ -641,3 +641,112 @@ Qed.
 Check C16_values_computed_shortcut_full_statement_refuted :
   ~ C16_values_computed_shortcut_full_statement.
 Print Assumptions C16_values_computed_shortcut_full_statement_refuted.
+
+(* ------------------------------------------------------------------------------------------
+   THE SHORT-CUT FOR ALL LEVELS — semantic core, `_partial` (stage 12; CFetchD/ProofsWindow.v):
+   [durge] / [durge_stable] of Core/DurSem.v ported to the resumable bodies of CFetchD.
+   [durgeD Q rank r d k]: in revision r every input the from-scratch evaluation of k reads,
+   transitively, has durability >= d.  Under the write rule of the last-changed vector (the first
+   and third clause of [durab_ok]) such a key has the same value, the same read path and the same
+   level in every later revision in which level d saw no write — for EVERY level (MEDIUM / HIGH
+   windows included).  Hence the short-cut returns the from-scratch value for every memo that
+   carries the from-scratch value of its verified_at and whose recorded durability is a semantic
+   level of its key.
+   GAP (the model-level theorem for all levels is NOT proved): that every memo of every reachable
+   state has [durgeD (o_ver m) (o_dur m) k].  A fresh execution establishes it
+   ([ProofsWindow.durgeD_of_reads]: the accumulated minimum); keeping it when a memo is marked
+   verified after a walk needs, for each recorded callee d with memo md, [o_dur m <= o_dur md] —
+   the observer clause of Core/DInv.v ([mo_obs]: ... /\ m_dur mg <= m_dur md, with
+   [frame_dur_lb]) — together with the stamped-durability hypothesis
+   (forall r i r', d_stamp Q r i <= r' <= r -> d_idur Q r' i = d_idur Q r i) without which the
+   statement is false (C16_values_computed_shortcut_full_statement_refuted), and the ghost set
+   `seen` closed over the call closure of a memo marked by the short-cut. *)
+From Salsa.CFetchD Require ProofsWindow ExamplesWindow.
+
+Theorem C16_stable_window_partial :
+  forall (Q : progD) (rank : key -> nat), Salsa.CFetchD.ProofsRel.rankedD Q rank ->
+  forall v cur d k,
+  (forall r d0 d', d0 <= d' -> d_lc Q r d' <= d_lc Q r d0) ->
+  (forall r r0 i, r0 <= r -> d_lc Q r (d_idur Q r0 i) <= r0 ->
+     d_in Q r i = d_in Q r0 i /\ d_stamp Q r i = d_stamp Q r0 i /\ d_idur Q r i = d_idur Q r0 i) ->
+  v <= cur -> d_lc Q cur d <= v -> Salsa.CFetchD.ProofsWindow.durgeD Q rank v d k ->
+  ED Q rank cur k = ED Q rank v k /\
+  Salsa.CFetchD.ProofsRel.readsb (ED Q rank cur) (d_in Q cur) (d_body Q k)
+    = Salsa.CFetchD.ProofsRel.readsb (ED Q rank v) (d_in Q v) (d_body Q k) /\
+  Salsa.CFetchD.ProofsWindow.durgeD Q rank cur d k.
+Proof. exact Salsa.CFetchD.ProofsWindow.durgeD_stable. Qed.
+
+Check C16_stable_window_partial :
+  forall (Q : progD) (rank : key -> nat), Salsa.CFetchD.ProofsRel.rankedD Q rank ->
+  forall v cur d k,
+  (forall r d0 d', d0 <= d' -> d_lc Q r d' <= d_lc Q r d0) ->
+  (forall r r0 i, r0 <= r -> d_lc Q r (d_idur Q r0 i) <= r0 ->
+     d_in Q r i = d_in Q r0 i /\ d_stamp Q r i = d_stamp Q r0 i /\ d_idur Q r i = d_idur Q r0 i) ->
+  v <= cur -> d_lc Q cur d <= v -> Salsa.CFetchD.ProofsWindow.durgeD Q rank v d k ->
+  ED Q rank cur k = ED Q rank v k /\
+  Salsa.CFetchD.ProofsRel.readsb (ED Q rank cur) (d_in Q cur) (d_body Q k)
+    = Salsa.CFetchD.ProofsRel.readsb (ED Q rank v) (d_in Q v) (d_body Q k) /\
+  Salsa.CFetchD.ProofsWindow.durgeD Q rank cur d k.
+Print Assumptions C16_stable_window_partial.
+
+(* the short-cut is sound for every memo whose recorded durability is a semantic level: the probe
+   [shortcut Q true cur m = true] then implies that the memo's value is the from-scratch value of
+   the current revision *)
+Theorem C16_shortcut_sound_of_semantic_level_partial :
+  forall (Q : progD) (rank : key -> nat), Salsa.CFetchD.ProofsRel.rankedD Q rank ->
+  forall cur k (m : memoD),
+  (forall r d0 d', d0 <= d' -> d_lc Q r d' <= d_lc Q r d0) ->
+  (forall r r0 i, r0 <= r -> d_lc Q r (d_idur Q r0 i) <= r0 ->
+     d_in Q r i = d_in Q r0 i /\ d_stamp Q r i = d_stamp Q r0 i /\ d_idur Q r i = d_idur Q r0 i) ->
+  o_val m = ED Q rank (o_ver m) k ->
+  Salsa.CFetchD.ProofsWindow.durgeD Q rank (o_ver m) (o_dur m) k -> o_ver m <= cur ->
+  shortcut Q true cur m = true ->
+  o_val m = ED Q rank cur k /\
+  Salsa.CFetchD.ProofsRel.readsb (ED Q rank cur) (d_in Q cur) (d_body Q k)
+    = Salsa.CFetchD.ProofsRel.readsb (ED Q rank (o_ver m)) (d_in Q (o_ver m)) (d_body Q k) /\
+  Salsa.CFetchD.ProofsWindow.durgeD Q rank cur (o_dur m) k.
+Proof. exact Salsa.CFetchD.ProofsWindow.shortcut_sound_of_durgeD. Qed.
+
+Check C16_shortcut_sound_of_semantic_level_partial :
+  forall (Q : progD) (rank : key -> nat), Salsa.CFetchD.ProofsRel.rankedD Q rank ->
+  forall cur k (m : memoD),
+  (forall r d0 d', d0 <= d' -> d_lc Q r d' <= d_lc Q r d0) ->
+  (forall r r0 i, r0 <= r -> d_lc Q r (d_idur Q r0 i) <= r0 ->
+     d_in Q r i = d_in Q r0 i /\ d_stamp Q r i = d_stamp Q r0 i /\ d_idur Q r i = d_idur Q r0 i) ->
+  o_val m = ED Q rank (o_ver m) k ->
+  Salsa.CFetchD.ProofsWindow.durgeD Q rank (o_ver m) (o_dur m) k -> o_ver m <= cur ->
+  shortcut Q true cur m = true ->
+  o_val m = ED Q rank cur k /\
+  Salsa.CFetchD.ProofsRel.readsb (ED Q rank cur) (d_in Q cur) (d_body Q k)
+    = Salsa.CFetchD.ProofsRel.readsb (ED Q rank (o_ver m)) (d_in Q (o_ver m)) (d_body Q k) /\
+  Salsa.CFetchD.ProofsWindow.durgeD Q rank cur (o_dur m) k.
+Print Assumptions C16_shortcut_sound_of_semantic_level_partial.
+
+(* Non-vacuity, with a HIGH input (CFetchD/ExamplesWindow.v): key 3 depends on the HIGH input only
+   (semantic level 2 in revision 1, by [durge3]); revision 2 writes the LOW input — the window
+   theorem applies to key 3, and in the run handle 1 holds the pending claim-free store of the
+   short-cut for key 3 WHILE handle 2 walks key 4; revision 3 writes the HIGH input — key 3 is
+   executed again.  Every returned value is the from-scratch value (by computation). *)
+Example C16_high_window_witness :
+  Salsa.CFetchD.ProofsRel.rankedD Salsa.CFetchD.ExamplesWindow.Qw Salsa.CFetchD.ExamplesWindow.rankw /\
+  Salsa.CFetchD.ProofsWindow.lc_antitone Salsa.CFetchD.ExamplesWindow.Qw /\
+  Salsa.CFetchD.ProofsWindow.write_rule Salsa.CFetchD.ExamplesWindow.Qw /\
+  Salsa.CFetchD.ProofsWindow.durgeD Salsa.CFetchD.ExamplesWindow.Qw Salsa.CFetchD.ExamplesWindow.rankw 1 2 3 /\
+  ED Salsa.CFetchD.ExamplesWindow.Qw Salsa.CFetchD.ExamplesWindow.rankw 2 3
+    = ED Salsa.CFetchD.ExamplesWindow.Qw Salsa.CFetchD.ExamplesWindow.rankw 1 3 /\
+  creachD 8 Salsa.CFetchD.ExamplesWindow.Qw true Salsa.CFetchD.ExamplesWindow.sw /\
+  Salsa.CFetchD.ExamplesWindow.phasesw Salsa.CFetchD.ExamplesWindow.swm 1 = [(3, DMark false (mkR 16 1 2))] /\
+  Salsa.CFetchD.ExamplesWindow.phasesw Salsa.CFetchD.ExamplesWindow.swm 2 = [(4, DVerify [ECall 2; ECall 3] true)] /\
+  (count_exec 3 1 (cD_log Salsa.CFetchD.ExamplesWindow.sw), count_exec 3 2 (cD_log Salsa.CFetchD.ExamplesWindow.sw),
+   count_exec 3 3 (cD_log Salsa.CFetchD.ExamplesWindow.sw)) = (1, 0, 1)%nat /\
+  map (fun r => (ED Salsa.CFetchD.ExamplesWindow.Qw Salsa.CFetchD.ExamplesWindow.rankw r 3,
+                 ED Salsa.CFetchD.ExamplesWindow.Qw Salsa.CFetchD.ExamplesWindow.rankw r 4)) [1; 2; 3]
+    = [(16, 18); (16, 22); (18, 24)].
+Proof.
+  destruct Salsa.CFetchD.ExamplesWindow.sw_shortcut_while_walking as [P1 P2].
+  destruct Salsa.CFetchD.ExamplesWindow.sw_values as (_ & V2 & V3 & _).
+  exact (conj Salsa.CFetchD.ExamplesWindow.rankedw (conj Salsa.CFetchD.ExamplesWindow.lc_antitonew
+        (conj Salsa.CFetchD.ExamplesWindow.write_rulew (conj Salsa.CFetchD.ExamplesWindow.durge3
+        (conj (proj1 Salsa.CFetchD.ExamplesWindow.window3) (conj Salsa.CFetchD.ExamplesWindow.sw_reachable
+        (conj P1 (conj P2 (conj V3 V2))))))))).
+Qed.
